@@ -363,7 +363,8 @@ pub fn make_solver(kind: &DynKind, h: MonHandle, backend: Backend) -> Result<Box
 // history generation
 // ---------------------------------------------------------------------------------------------
 
-pub const SHAPES: [&str; 8] = [
+pub const SHAPES: [&str; 9] = [
+    "hub-churn",
     "random",
     "query-after-every-update",
     "burst-then-query-all-twice",
@@ -665,6 +666,46 @@ pub fn gen_history(rng: &mut Rng, kind: &DynKind, shape: &str, max_len: usize, f
                 }
                 if g.rng.pct(30) {
                     g.query_random();
+                }
+            }
+        }
+        "hub-churn" => {
+            // one long-lived argument keeps (re-)attacking neighbours that come and go: its attack
+            // lists collect tombstones; its attacks are re-added (redundantly) and removed
+            let hub = g.universe[0];
+            g.push_upd(Op::AddArg(hub));
+            let len = len.max(60);
+            while g.ops.len() < len {
+                let x = g.universe[1 + g.rng.below(g.universe.len() - 1)];
+                match g.rng.weighted(&[5, 4, 8, 3, 2, 3]) {
+                    0 => {
+                        if !g.shadow.live.contains(&x) {
+                            g.push_upd(Op::AddArg(x));
+                        }
+                    }
+                    1 => {
+                        if g.shadow.live.contains(&x) {
+                            g.push_upd(Op::DelArg(x));
+                        }
+                    }
+                    2 => {
+                        if g.shadow.live.contains(&x) && (g.fault_pct > 0 || !g.shadow.att.contains(&(hub, x))) {
+                            g.push_upd(Op::AddAtt(hub, x));
+                        }
+                    }
+                    3 => {
+                        if g.shadow.att.contains(&(hub, x)) {
+                            g.push_upd(Op::DelAtt(hub, x));
+                        }
+                    }
+                    4 => g.update(&[1, 0, 4, 1]),
+                    _ => {
+                        if g.rng.pct(50) {
+                            g.query_random();
+                        } else if g.shadow.live.contains(&x) {
+                            g.query(x);
+                        }
+                    }
                 }
             }
         }
